@@ -30,10 +30,11 @@ struct RunCtx{
   std::string opkind; int opi; std::string prop_default;
   bool moved_in_run;
   bool have_foreign; std::string f_prop,f_cls,f_sig,f_detail;
+  double last_apply_t; std::vector<double> last_apply_y; bool have_last_apply;   // (t, y) the stepper was handed at the start of its last step of this Evolve
   int toggle_at,toggle_which,pre_count; bool toggled;   // the n-th in-step PreDerive of this Evolve flips one term switch (0: never)
   void (*pre_hook)(void* run,SimSolver* self,double t); void* run;      // what the harness' PreDerive does besides logging (set by the engine)
   RunCtx():out(0),tr(0),ctr(0),prob(0),live(0),cur_input(0),cur_t(0),in_proxy(false),rhs_evals(0),napply(0),rejections_fired(0),failures_fired(0),
-           reject_budget(0),fail_budget(0),hard_fail_at(0),distinct_inputs(0),nseen(0),opi(-1),moved_in_run(false),have_foreign(false),toggle_at(0),toggle_which(0),pre_count(0),toggled(false),pre_hook(0),run(0){}
+           reject_budget(0),fail_budget(0),hard_fail_at(0),distinct_inputs(0),nseen(0),opi(-1),moved_in_run(false),have_foreign(false),last_apply_t(0),have_last_apply(false),toggle_at(0),toggle_which(0),pre_count(0),toggled(false),pre_hook(0),run(0){}
   void violation(const std::string& prop,const std::string& cls,const std::string& sig,const std::string& detail){
     if(!out->ok) return;
     int sc=verif::alloc_in_scope(); verif::alloc_scope(0);      // may be called from a callback inside the library: harness strings must not live in the simulated heap
